@@ -103,6 +103,14 @@ class VSeq(Val):
 
 
 @dataclass(frozen=True)
+class VRange(Val):
+    """range(start, stop) with symbolic int bounds (step 1)"""
+
+    start: Any
+    stop: Any
+
+
+@dataclass(frozen=True)
 class VTuple(Val):
     items: tuple
 
